@@ -160,7 +160,8 @@ theorem exception_counted_once (k : Nat) (classes : List ExcClass) (b : Body) (s
 theorem hierarchy_facts :
     (∀ c : ExcClass, isSubclass c .baseException = true) ∧
     (∀ c : ExcClass, isSubclass c .exception = true ↔
-      c ≠ .baseException ∧ c ≠ .keyboardInterrupt ∧ c ≠ .systemExit ∧ c ≠ .generatorExit) ∧
+      c ≠ .baseException ∧ c ≠ .keyboardInterrupt ∧ c ≠ .systemExit ∧ c ≠ .generatorExit ∧
+      c ≠ .baseExceptionGroup) ∧
     (∀ c : ExcClass, isSubclass c .lookupError = true ↔ c = .lookupError ∨ c = .keyError) ∧
     (∀ c d e : ExcClass, isSubclass c d = true → isSubclass d e = true → isSubclass c e = true) ∧
     (∀ i, escapes [.exception] (.raise ⟨i, .keyboardInterrupt⟩) = false) ∧
@@ -177,12 +178,33 @@ theorem hierarchy_facts :
 theorem count_exceptions_default :
     defaultClasses = [.exception] ∧
     (∀ i c, escapes defaultClasses (.raise ⟨i, c⟩) = true ↔
-      c ≠ .baseException ∧ c ≠ .keyboardInterrupt ∧ c ≠ .systemExit ∧ c ≠ .generatorExit) := by
+      c ≠ .baseException ∧ c ≠ .keyboardInterrupt ∧ c ≠ .systemExit ∧ c ≠ .generatorExit ∧
+      c ≠ .baseExceptionGroup) := by
   have hd : defaultClasses = [.exception] := by decide
   refine ⟨hd, ?_⟩
   intro i c
   rw [hd]
   cases c <;> simp [escapes, ExcClass.mro]
+
+/-- **Exception groups** (Python 3.11+): `ExceptionCounter.__exit__` tests `isinstance(value, …)` on the escaping
+object only, so a group is counted exactly when the *group object* is an instance of the configured classes — never
+because of a leaf it contains (an exception object in the model has identity and class, no leaves: the source does
+not look at them; the harness raises groups with matching and non-matching leaves).  `ExceptionGroup('g',
+[ValueError()])` is not counted by `count_exceptions(ValueError)` but is by the default (`ExceptionGroup ⊂
+Exception`); `BaseExceptionGroup` is counted by neither; `class ValueGroup(ExceptionGroup, ValueError)` by both. -/
+theorem exception_groups_by_instance_only :
+    (∀ i, escapes [.valueError] (.raise ⟨i, .exceptionGroup⟩) = false) ∧
+    (∀ i, escapes [.exception] (.raise ⟨i, .exceptionGroup⟩) = true) ∧
+    (∀ i, escapes [.exception] (.raise ⟨i, .baseExceptionGroup⟩) = false) ∧
+    (∀ i, escapes [.valueError, .lookupError] (.raise ⟨i, .baseExceptionGroup⟩) = false) ∧
+    (∀ i, escapes [.exceptionGroup] (.raise ⟨i, .valueError⟩) = false) ∧
+    (∀ i, escapes [.baseExceptionGroup] (.raise ⟨i, .exceptionGroup⟩) = true) ∧
+    (∀ i, escapes [.valueError] (.raise ⟨i, .valueGroup⟩) = true) ∧
+    (∀ k i s, (exec (.mk [.countExc k [.valueError]] (.out (.raise ⟨i, .exceptionGroup⟩))) s).2.counter k = s.counter k) :=
+  ⟨fun _ => rfl, fun _ => rfl, fun _ => rfl, fun _ => rfl, fun _ => rfl, fun _ => rfl, fun _ => rfl,
+   fun k i s => by
+     rw [exception_counted_iff]
+     simp [escCall, escOn, escBody, outcomeBody, escapes, ExcClass.mro]⟩
 
 example : (exec (.mk [.countExc 0 [.exception]] (.nest
       (.cons (.mk [.countExc 0 [.exception]] (.out (.raise ⟨1, .keyError⟩)))
